@@ -23,20 +23,25 @@ add("C01", "model_checking",
     "Proved (Kani function contracts, complete): set_accepting_state records exactly the current position and action; backtrack restores exactly the saved position, "
     "iterator and action or fails. Bounded (Kani on macro-expanded lexers): one real next() call from a symbolic call-start state equals the maximal-munch reference step "
     "(longest match, first-rule priority, rewind) on 8 definitions incl. cyclic automata with joins, a context-only accepting state, shared tails and stale saved matches.",
-    B_NOTE + BOUNDED_NOTE + "The compile-time analysis update_backtracks is covered only through the bounded layer unless listed under proved_obligations.",
+    B_NOTE + BOUNDED_NOTE + "Proved (Verus, real text): update_backtracks (termination, flags closed under successors of flagged-or-accepting states) and the target-set assembly of nfa_to_dfa "
+    "(a character arm stands for the character, the ranges containing it and `_`); their preconditions at the callers and the trusted R7/B1 fragments are listed in the evidence.",
     "Kani function contracts on lexgen_util + bounded step-contract harnesses (Kani/CBMC) on generated lexers against a generated reference", "5 C01, 11.4")
 add("C02", "model_checking",
     "Proved (Verus): NFA::compute_state_closure returns exactly the epsilon-closure (contains the seeds, closed, every member reachable, terminates); the range-map merge used by overlapping "
     "transitions is proved in C11's units. Bounded: step-contract harnesses compare the generated lexer with a denotational regex matcher (structural recursion on the AST, straight-line tables) on 11 definitions covering "
     "every operator, overlapping ranges, `_` with ranges and literals, nested repetition, equivalent spellings (r+ / r r*, a|b / b|a, variable / definition, string / characters) "
     "and precedence-sensitive raw spellings.",
-    BOUNDED_NOTE + "compute_state_closure: assumed specs of <&HashSet as IntoIterator>::into_iter and HashSet::clone, one trusted R7 fragment, wf_nfa not verified at callers. add_re / nfa_to_dfa / simplify have no contract (TokenStream-free but closure/iterator heavy; a mechanised subset-construction proof is out of reach here).",
+    BOUNDED_NOTE + "compute_state_closure: assumed specs of <&HashSet as IntoIterator>::into_iter and HashSet::clone, one trusted R7 fragment, wf_nfa not verified at callers. Also proved (unit nfa_to_dfa_targets, rule B1: two blocks of the real "
+    "nfa_to_dfa): the target set of a character transition is exactly its own targets + those of every range containing the character + the `_` targets, of a range transition its own + the `_` targets. "
+    "The rest of nfa_to_dfa (state map, closure calls, builder calls) and the language of add_re's automaton have no contract (a mechanised Thompson / subset-construction proof is out of reach here).",
     "bounded step-contract harnesses (Kani/CBMC) on generated lexers against a denotational reference", "5 C02, 11.4")
 add("C03", "model_checking",
-    "Proved (Verus): CgCtx::renumber_state subtracts exactly the number of inlined states below a state and never underflows. Bounded: step contract with SYMBOLIC active rule set "
+    "Proved (Verus): CgCtx::renumber_state subtracts exactly the number of inlined states below a state and never underflows; in dfa/simplify.rs (rule B1, three blocks of the real function) a state is removed only if it has no "
+    "transition of any kind and is not a rule-set entry state, and every entry index and transition target is renumbered to the position the surviving state really gets (lemma_renumbering_is_position). Bounded: step contract with SYMBOLIC active rule set "
     "(entered through the generated switch) on 5 multi-rule-set definitions incl. dropped/inlined first states: only rules of the active set match, switch / switch_and_return enter "
     "exactly the named set, failures return to Init.",
-    BOUNDED_NOTE + "renumber_state: assumed spec of [T]::binary_search and of derive(Ord) on StateIdx; sortedness of inlined_states is a precondition (CgCtx::new not verified).",
+    BOUNDED_NOTE + "renumber_state: assumed spec of [T]::binary_search and of derive(Ord) on StateIdx; sortedness of inlined_states is a precondition (CgCtx::new not verified). simplify_remap: loop headers, the "
+    "order-preserving iterator chains and DFA::add_dfa (which places a rule set's states) are not verified; assumed spec of [T]::binary_search_by.",
     "Verus contract on renumber_state + bounded step-contract harnesses with symbolic rule set", "5 C03, 11.4")
 add("C04", "model_checking",
     "Bounded: 9 right-context definitions (multi-character literal, a character vs a range covering it inside the context, `$`, negative, nullable, context on a non-first rule, "
@@ -44,7 +49,8 @@ add("C04", "model_checking",
     BOUNDED_NOTE + "No function of right_ctx.rs / codegen.rs admits a semantic contract (they build TokenStreams), hence no proved part.",
     "bounded step-contract harnesses (Kani/CBMC) on generated lexers with right contexts", "5 C04, 11.4")
 add("C05", "model_checking",
-    "Proved: backtrack clears the done flag exactly on a rewind; next() never drops a character. Bounded: the done flag is part of the symbolic call-start state; `$` rules in Init and other "
+    "Proved: backtrack clears the done flag exactly on a rewind; next() never drops a character; (Verus, real dfa.rs) has_no_transitions counts the `$` transition and set_end_of_input_transition stores exactly the given target "
+    "(whole-view contracts of the DFA builder API). Bounded: the done flag is part of the symbolic call-start state; `$` rules in Init and other "
     "rule sets, `re $` preferred to `re`, Init ends the stream at a lexeme boundary, other rule sets fail, nothing after the end-of-input event.",
     B_NOTE + BOUNDED_NOTE + "Corpus policy: `$` only at the tail of a rule or context (the property's well-formedness condition).",
     "Kani contracts on lexgen_util + bounded step-contract harnesses with symbolic done flag", "5 C05, 11.4")
@@ -82,10 +88,11 @@ add("C11", "proof",
     "termination of regex_to_range_map is not proved, the built-in name lookup is trusted (C13). The native small-scope replayer only produces witnesses.",
     "contract-based deductive verification (Verus) of mechanically extracted real functions", "5 C11, 11.2")
 add("C12", "other",
-    "Bounded stand-in by execution: 68 definitions (the whole layer-C corpus plus 14 C12-specific ones: the formerly non-terminating five-rule definition, contexts of every shape, repeated "
+    "Bounded stand-in by execution: 74+ definitions (the whole layer-C corpus plus the C12-specific ones: the formerly non-terminating five-rule definition, contexts of every shape, repeated "
     "characters in sets, nested optional/starred operands, several rule sets, large built-ins, tens of rules, several lexers per module) are expanded by the real macro and compiled, each under a 120 s watchdog.",
     "A finite corpus; 'expanding twice gives the same code' is a two-run property no contract expresses: eight definitions are expanded twice in separate compiler processes and compared (execution only). "
-    "Termination of update_backtracks for every DFA is proved by the Verus unit update_backtracks (listed in the evidence).",
+    "Proved parts (Verus, real text, listed in the evidence): termination of update_backtracks for every DFA; for every well-formed regex no self-check (assert!) of the NFA construction add_re / add_regex can fire and every index is "
+    "in bounds; the DFA builder API keeps every transition target inside the state vector and its own asserts hold under the stated preconditions. One KNOWN FINDING (exponential code size, DESIGN 11.8).",
     "expansion + compilation of a corpus under a watchdog (bounded stand-in); Verus termination proof of the backtrack analysis when present", "5 C12")
 add("C13", "proof",
     "Composition: (1) Verus contract of the real table generator (canonical list of any predicate); (2) the real generator on the 20 README predicates equals the table the real name lookup returns, "
